@@ -80,6 +80,19 @@ def _is_type_expr(m: Model, caller: FuncInfo, e: ast.expr) -> bool | None:
 
 def lint_function(m: Model, f: FuncInfo) -> list[tuple[int, str]]:
     out: list[tuple[int, str]] = []
+    # contradiction: `assert X is None` (a stated belief) followed by an unconditional dereference of X in the same block
+    body = f.node.body
+    for i, st in enumerate(body):
+        if isinstance(st, ast.Assert) and isinstance(st.test, ast.Compare) and len(st.test.ops) == 1 and isinstance(st.test.ops[0], ast.Is) \
+                and isinstance(st.test.comparators[0], ast.Constant) and st.test.comparators[0].value is None and isinstance(st.test.left, (ast.Name, ast.Attribute)):
+            x = ast.unparse(st.test.left)
+            for later in body[i + 1:]:
+                if any(isinstance(t, (ast.Assign, ast.AnnAssign)) and ast.unparse(t.targets[0] if isinstance(t, ast.Assign) else t.target) == x for t in ast.walk(later)):
+                    break
+                if any(isinstance(n_, ast.Attribute) and ast.unparse(n_.value) == x for n_ in ast.walk(later)):
+                    out.append((st.lineno, f"`{ast.unparse(st)[:60]}` asserts that {x} is None, and line {later.lineno} dereferences it: one of the two is wrong "
+                                           "(the assertion fails on every call, or the dereference raises)"))
+                    break
     for n in walk_no_nested(f.node):
         if not isinstance(n, ast.Call):
             continue
@@ -116,7 +129,7 @@ def apply(m: Model, r, prop: str) -> None:
     from .model import AnalysisError
     pats = ANCHORS.get(prop, []) + NEUTRAL_EXTRA.get(prop, [])
     r.rule("R0", "call sites in the property's anchor functions bind every argument to the parameter it names: no swapped arguments, "
-                 "isinstance(object, type) and wait_for(awaitable, timeout) in that order", floor=1)
+                 "isinstance(object, type) and wait_for(awaitable, timeout) in that order; no `assert X is None` contradicted by a dereference of X", floor=1)
     n = 0
     for f in m.functions():
         if not any(fnmatch.fnmatchcase(f.qualname, p_) for p_ in pats):
